@@ -67,8 +67,10 @@ def h_footer_rewrite(data_len: int, old_footer: int, new_footer: int, is_md: boo
                 writer.__dict__.pop(k, None)
             else:
                 setattr(writer, k, v)
-    # the old footer was parsed from exactly its extent
-    if state.get("parsed") != (data_len, size):
+    # the old footer was parsed from its own start and the parsed bytes cover all of it (the thrift parser stops at
+    # the end of the structure: trailing length/magic bytes are ignored)
+    parsed = state.get("parsed")
+    if parsed is None or parsed[0] != data_len or parsed[1] < data_len + old_footer or parsed[1] > size:
         return False
     # nothing before the footer is touched, and the writes are footer, length, magic laid end to end from data_len
     want_pos = data_len
